@@ -16,7 +16,9 @@ LEVEL = "exploration"
 RULE = ("bounded-exhaustive enumeration (E1): frame length 0..255 x content pattern x device id x wall-clock instant; "
         "each case is one LAN.send on a V2 connection whose wire bytes are parsed by the independent reference codec "
         "(marker, little-endian length == byte count, id bytes, timestamp, MD5 over packet[:-16]+key, AES-ECB/PKCS7) and whose "
-        "reply is built by the reference codec for a different frame; plus a direct _Packet.encode/decode sweep. "
+        "reply is built by the reference codec for a different frame; plus a direct _Packet.encode/decode sweep over lengths 0..600, incl. "
+        "frames that begin or end with the protocol's own literals (5A5A, 8370, AA, ERROR, pad bytes) and the requirement that a decoded frame "
+        "stays what it was when the next packet is decoded. "
         "non-trivial = frame length > 0")
 ASSUMPTIONS = ["AES block primitive and hashlib.md5 are correct", "one reply packet per TCP segment (V2 has no reassembly layer)"]
 IP, PORT = "10.0.0.9", 6444
@@ -153,11 +155,21 @@ def run_shard(shard, tier) -> Stats:
     else:
         # direct seam (pinned by the repository's tests), also for lengths the device path does not carry
         World().close()
+        held = None      # (object returned by the previous decode, the frame it must still equal)
+        LITS = [b"\x5a\x5a", b"\x83\x70", b"\xaa", b"ERROR", b"\x5a\x5a\x01\x11", b"\x10" * 16]
         for n in range(0, 601):
-            for pat in range(5):
-                frame = al.payload("c02/d", n, pat)
+            for pat in range(5 + 2 * len(LITS)):
+                if pat < 5:
+                    frame = al.payload("c02/d", n, pat)
+                else:
+                    # frames that begin / end with the protocol's own literals (a frame is opaque content to the packet layer)
+                    lit = LITS[(pat - 5) // 2]
+                    if n < len(lit) or (n > 64 and n % 16 not in (0, 1, 15)):
+                        continue
+                    body = al.payload("c02/l", n - len(lit), 3)
+                    frame = lit + body if pat % 2 else body + lit
                 dev_id = idl[(n + pat) % len(idl)]
-                case = {"kind": "direct", "len": n, "pattern": pat, "id": dev_id}
+                case = {"kind": "direct", "len": n, "pattern": pat, "id": dev_id, "frame": frame}
                 prob = None
                 try:
                     p = rc.v2_parse(_Packet.encode(dev_id, frame))
@@ -171,6 +183,9 @@ def run_shard(shard, tier) -> Stats:
                     got = _Packet.decode(rc.v2_build(frame, dev_id, magic=b"\x20\x80", tail=bytes(range(12))))
                     if got != frame:
                         prob = prob or "decode: different frame"
+                    if held is not None and bytes(held[0]) != held[1]:
+                        prob = prob or "decode: the frame returned by the previous decode changed when this packet was decoded"
+                    held = (got, frame)
                 except Exception as e:  # noqa: BLE001
                     prob = prob or f"decode: {type(e).__name__}"
                 # the length field delimits the packet: bytes that follow it in the same segment (e.g. a second packet)
